@@ -114,7 +114,12 @@ def run(repo):
         for c in calls:
             env = bind_args(dv, c)
             vt = env.get('vtype') if env else None
-            ok = vt is None or (isinstance(vt, ast.Constant) and vt.value == 'C')
+            if vt is not None:
+                from .common import expand_locals
+                vt = expand_locals(f2.node, vt)
+            if vt is not None and not isinstance(vt, ast.Constant):
+                raise AnalysisError('%s: the vtype `%s` of a formulation-time variable is not a literal' % (fq, ntext(vt)[:30]))
+            ok = vt is None or vt.value == 'C'
             res.inst({'formulation_time_dvar': fq, 'call': ntext(c)[:50], 'continuous': ok}, ok)
             if not ok:
                 res.fail(Finding(RULE, fq, 'typed formulation-time variable: ' + ntext(c)[:40],
@@ -122,15 +127,42 @@ def run(repo):
                                  'dual / epigraph columns must be continuous' % (fq, ntext(vt)[:20]),
                                  repo.where(f2, c), P))
     rv = repo.func('dro.Model.rule_var')
-    typed = [n for n in walk_no_nested(rv.node) if isinstance(n, ast.Call) and isinstance(n.func, ast.Attribute)
-             and n.func.attr == 'dvar' and any(k.arg == 'vtype' for k in n.keywords)]
-    ok = len(typed) == 1 and 'vtype' in ntext(typed[0]) and any(
-        isinstance(n, ast.Assign) and ntext(n.targets[0]) == 'vtype' and 'dvar.vtype' in ntext(n.value)
-        for n in walk_no_nested(rv.node))
+    dv = repo.func('lp.Model.dvar')
+    typed = 0
+    ok = True
+    why = ''
+    for c in [n for n in walk_no_nested(rv.node) if isinstance(n, ast.Call) and isinstance(n.func, ast.Attribute)
+              and n.func.attr == 'dvar']:
+        env = bind_args(dv, c) or {}
+        vt = env.get('vtype')
+        if vt is None or (isinstance(vt, ast.Constant) and vt.value == 'C'):
+            continue
+        typed += 1
+        # everything that flows into the type string: its definitions and accumulations
+        contrib = [vt]
+        if isinstance(vt, ast.Name):
+            contrib = [n.value for n in walk_no_nested(rv.node)
+                       if (isinstance(n, ast.Assign) and any(isinstance(t, ast.Name) and t.id == vt.id for t in n.targets))
+                       or (isinstance(n, ast.AugAssign) and isinstance(n.target, ast.Name) and n.target.id == vt.id)]
+        for v in contrib:
+            if isinstance(v, ast.Constant) and v.value == '':
+                continue
+            if any(isinstance(x, ast.Attribute) and x.attr == 'vtype' for x in ast.walk(v)):
+                continue
+            calls_ = [x for x in ast.walk(v) if isinstance(x, ast.Call) and
+                      ntext(x.func) not in ('len', 'str', "''.join", 'list', 'tuple')]
+            if calls_:
+                raise AnalysisError('rule_var: the type string is built through `%s`, which the rule does not follow'
+                                    % ntext(calls_[0])[:40])
+            ok = False
+            why = ntext(v)[:40]
+    if typed == 0:
+        ok = False
+        why = 'no dvar(.., vtype=..) call is left'
     res.inst({'rule_var': 'typed columns come from the decisions\' own vtype', 'ok': ok}, ok)
     if not ok:
         res.fail(Finding(RULE, rv.fq, 'rule_var vtype', 'rule_var must allocate its constant columns with '
-                         'the vtype string assembled from each decision variable\'s own vtype',
+                         'the vtype string assembled from each decision variable\'s own vtype (%s)' % why,
                          repo.where(rv), P))
     # ---------------------------------------------------------------- (c)
     for fq in ('lp.Model.do_math', 'socp.Model.do_math', 'gcp.Model.do_math'):
